@@ -8,6 +8,7 @@ mod ct;
 mod digest;
 mod lex;
 mod lr;
+mod mm;
 mod nlc;
 mod width;
 mod ysrc;
@@ -41,6 +42,7 @@ fn main() {
         "digest" => digest::main(&args[2..]),
         "total-child" => total::child_main(),
         "width" => width::main(&args[2..]),
+        "markmap" => mm::main(&args[2..]),
         x => {
             eprintln!("unknown subcommand {}", x);
             2
